@@ -256,6 +256,16 @@ def parseIndentCode (cfg : MdCfg) (mt : RxMatch) (st : BlockState) : PMRes := do
   let code := Py.stripC ['\n'] code
   return (some mt.stop, st.appendToken (tok "block_code" [("raw", .str code), ("style", Json.s "indent")]))
 
+/-- the `(code, end_pos)` computation of `parse_fenced_code`: search the closing fence from `cursorStart`
+(`m.end() + 1`), slice the body, strip up to `k = len(spaces)` leading blanks of every line (`k = 0`: `spaces` is
+empty, no trim; Python also skips the `sub` when `code` is empty) -/
+def fencedBody (x : RxCtx) (cursorMax : Nat) (c : Char) (n k : Nat) (cursorStart : Nat) : Str × Nat :=
+  let (code, endPos) := match Py.search (fenceEndRx c n) x cursorStart with
+    | some m2 => (Py.slice x.s cursorStart m2.start, m2.stop)
+    | none => (Py.slice x.s cursorStart x.s.size, cursorMax)
+  let code := if k != 0 && !code.isEmpty then Py.reSub (trimRx k) (fun _ _ => []) code else code
+  (code, endPos)
+
 /-- `BlockParser.parse_fenced_code` -/
 def parseFencedCode (cfg : MdCfg) (mt : RxMatch) (st : BlockState) : PMRes := do
   let spaces := grp cfg st mt "fenced_1"
@@ -266,12 +276,7 @@ def parseFencedCode (cfg : MdCfg) (mt : RxMatch) (st : BlockState) : PMRes := do
     | [] => throw PyErr.indexError                        -- `marker[0]`
   if !info.isEmpty && c == '`' && info.contains c then    -- `info.find(c) != -1`
     return (none, st)
-  let endRx := fenceEndRx c marker.length
-  let cursorStart := mt.stop + 1
-  let (code, endPos) := match Py.search endRx st.x cursorStart with
-    | some m2 => (Py.slice st.x.s cursorStart m2.start, m2.stop)
-    | none => (Py.slice st.x.s cursorStart st.x.s.size, st.cursorMax)
-  let code := if !spaces.isEmpty && !code.isEmpty then Py.reSub (trimRx spaces.length) (fun _ _ => []) code else code
+  let (code, endPos) := fencedBody st.x st.cursorMax c marker.length spaces.length (mt.stop + 1)
   let token := tok "block_code" [("raw", .str code), ("style", Json.s "fenced"), ("marker", .str marker)]
   let token := if !info.isEmpty then
       let info := unescapeChar cfg info
